@@ -17,7 +17,12 @@
  * Output per case (the case line is also the model driver's input, see lean/Drv/C20.lean):
  *   case <id> <flags> <len> <lps> <lpe> <flg> <skip> <pos> <filehex> <bufhex> [<limit>]
  *   R <id> <ret> <len> <lps> <lpe> <flg> <tell> <allochex|NULL>
- *   O <id> <what>            only when the built-in shape oracle (loop range, guard replication) fails
+ *   O <id> <what>            only when a built-in oracle fails: shape (loop range, guard replication) right after the load;
+ *                            `playback-modified`: the allocation differs from its load-time content after the sample was
+ *                            played (module built around it, looped note, nearest/linear/spline, loop end == len too);
+ *                            `final-loop-range`: a sample of a successfully loaded module has loop points outside its data
+ *   epi <id> <hasdata> <len> <lps> <lpe> <flg> <sus> <sue>     one sample header as libxmp_load_epilogue found it (model input)
+ *   ER <id> <lps> <lpe> <flg>                                   ... and as it left it (compared with LoadPost.epilogueLoop)
  *
  * The handle is a memory HIO handle over the bytes of <filehex>, positioned at <pos> (pos = -1: NULL
  * handle); <bufhex> is the SAMPLE_FLAG_NOLOAD buffer, allocated with exactly its size so that ASan
@@ -169,6 +174,121 @@ static int cb_close(void *priv)
 	return 0;
 }
 
+/* ---------------------------------------------------------------- play phase */
+
+void libxmp_load_prologue(struct context_data *);
+void libxmp_load_epilogue(struct context_data *);
+
+static long play_every = 1, plays_done;
+
+/* first byte at which the allocation of `s` differs from `snap`, -1 if none */
+static long alloc_diff(const struct xmp_sample *s, const unsigned char *snap, size_t n)
+{
+	size_t i;
+	const unsigned char *a = s->data - 4;
+	for (i = 0; i < n; i++)
+		if (a[i] != snap[i])
+			return (long)i;
+	return -1;
+}
+
+/* Build a one-instrument module around the loaded sample (private headers, the way test-dev/simple_module.c does),
+ * play one looped note with each interpolator for a few ticks and check that the sample memory - PCM and guard
+ * frames - is what the load left.  Header variants: as loaded; forward loop ending at len; bidirectional inner loop. */
+static void play_phase(const struct tcase *c, struct xmp_sample *s)
+{
+	static const int interps[3] = { XMP_INTERP_NEAREST, XMP_INTERP_LINEAR, XMP_INTERP_SPLINE };
+	int fl = frame_len(s->flg), variant, ip, k, frames;
+	size_t n = 4 + (size_t)s->len * fl + 4 * fl;
+	unsigned char *snap;
+	xmp_context opaque;
+	struct context_data *ctx;
+	struct module_data *m;
+	struct xmp_module *mod;
+	struct xmp_event *e;
+	long d;
+
+	if (s->len <= 0 || s->len > 2048 || (s->flg & XMP_SAMPLE_SYNTH))
+		return;
+	snap = (unsigned char *)malloc(n);
+	memcpy(snap, s->data - 4, n);
+	frames = 3 + s->len / 128;
+
+	opaque = xmp_create_context();
+	ctx = (struct context_data *)opaque;
+	m = &ctx->m;
+	mod = &m->mod;
+	libxmp_load_prologue(ctx);
+	mod->len = 1;
+	mod->pat = 1;
+	mod->ins = 1;
+	mod->chn = 1;
+	mod->trk = 1;
+	mod->smp = 1;
+	mod->xxo[0] = 0;
+	libxmp_init_pattern(mod);
+	libxmp_alloc_pattern_tracks(mod, 0, 64);
+	libxmp_init_instrument(m);
+	mod->xxi[0].nsm = 1;
+	libxmp_alloc_subinstrument(mod, 0, 1);
+	mod->xxi[0].sub[0].pan = 0x80;
+	mod->xxi[0].sub[0].vol = 0x40;
+	mod->xxi[0].sub[0].sid = 0;
+	e = &mod->xxt[mod->xxp[0]->index[0]]->event[0];
+	e->note = 49 + (s->len % 36);
+	e->ins = 1;
+
+	for (variant = 0; variant < 3; variant++) {
+		struct xmp_sample v = *s;
+		if (variant == 1) {
+			v.flg = (v.flg & ~(XMP_SAMPLE_LOOP_BIDIR | XMP_SAMPLE_LOOP_REVERSE | XMP_SAMPLE_LOOP_FULL)) | XMP_SAMPLE_LOOP;
+			v.lps = v.len / 2;
+			v.lpe = v.len;	/* loop end == len: the mixer's epilogue lies in the guard frames */
+			if (v.lps >= v.lpe)
+				continue;
+		} else if (variant == 2) {
+			if (v.len < 4)
+				continue;
+			v.flg |= XMP_SAMPLE_LOOP | XMP_SAMPLE_LOOP_BIDIR;
+			v.lps = 1;
+			v.lpe = v.len - 2;
+		}
+		mod->xxs[0] = v;
+		libxmp_load_epilogue(ctx);	/* every exposed header went through it (sustain loop vs m->xtra, loop range) */
+		if (variant == 0) {
+			libxmp_prepare_scan(ctx);
+			libxmp_scan_sequences(ctx);
+			ctx->state = XMP_STATE_LOADED;
+		}
+		for (ip = 0; ip < 3; ip++) {
+			if (xmp_start_player(opaque, 8000, (c->len & 1) ? XMP_FORMAT_MONO : 0) != 0)
+				continue;
+			xmp_set_player(opaque, XMP_PLAYER_INTERP, interps[ip]);
+			d = -1;
+			for (k = 0; k < frames && d < 0; k++) {
+				if (xmp_play_frame(opaque) != 0)
+					break;
+				d = alloc_diff(s, snap, n);
+			}
+			xmp_end_player(opaque);
+			if (d < 0)
+				d = alloc_diff(s, snap, n);
+			if (d >= 0) {
+				printf("O %s playback-modified byte %ld (data[%ld]) of %lu, header variant %d loop=[%d,%d) flg=%d, interp %d\n",
+				       c->id, d, d - 4, (unsigned long)n, variant, v.lps, v.lpe, v.flg, ip);
+				memcpy(s->data - 4, snap, n);
+				goto done;
+			}
+		}
+	}
+    done:
+	plays_done++;
+	mod->xxs[0].data = NULL;	/* the sample memory stays ours */
+	xmp_release_module(opaque);
+	xmp_free_context(opaque);
+	free(snap);
+}
+
 static void run_case(struct tcase *c)
 {
 	struct xmp_sample s;
@@ -244,6 +364,8 @@ static void run_case(struct tcase *c)
 	}
 	fputc('\n', stdout);
 	shape_oracle(c, &s, ret);
+	if (ret == 0 && s.data != NULL && play_every > 0 && ncases_run % play_every == 0)
+		play_phase(c, &s);
 	ncases_run++;
 
 	libxmp_free_sample(&s);
@@ -345,6 +467,110 @@ int __wrap_libxmp_load_sample(struct module_data *m, HIO_HANDLE *f, int flags, s
 	return ret;
 }
 
+/* ---------------------------------------------------------------- epilogue spy, final headers, corpus playback */
+
+void __real_libxmp_load_epilogue(struct context_data *);
+static long epi_recorded, final_checked, corpus_played;
+
+void __wrap_libxmp_load_epilogue(struct context_data *ctx)
+{
+	struct module_data *m = &ctx->m;
+	struct xmp_module *mod = &m->mod;
+	struct pre {
+		int has, len, lps, lpe, flg, sus, sue;
+	} *pre = NULL;
+	int i, n = 0;
+
+	if (spy_on && mod->xxs != NULL && m->xtra != NULL && mod->smp > 0) {
+		n = mod->smp > MAX_SAMPLES ? MAX_SAMPLES : mod->smp;
+		pre = (struct pre *)calloc(n, sizeof(*pre));
+		for (i = 0; i < n; i++) {
+			pre[i].has = mod->xxs[i].data != NULL;
+			pre[i].len = mod->xxs[i].len;
+			pre[i].lps = mod->xxs[i].lps;
+			pre[i].lpe = mod->xxs[i].lpe;
+			pre[i].flg = mod->xxs[i].flg;
+			pre[i].sus = m->xtra[i].sus;
+			pre[i].sue = m->xtra[i].sue;
+		}
+	}
+	__real_libxmp_load_epilogue(ctx);
+	for (i = 0; i < n; i++) {
+		printf("epi %s_e%d %d %d %d %d %d %d %d\n", spy_prefix, i, pre[i].has, pre[i].len, pre[i].lps, pre[i].lpe, pre[i].flg,
+		       pre[i].sus, pre[i].sue);
+		printf("ER %s_e%d %d %d %d\n", spy_prefix, i, mod->xxs[i].lps, mod->xxs[i].lpe, mod->xxs[i].flg);
+		epi_recorded++;
+	}
+	free(pre);
+}
+
+/* the sample as finally exposed by a successful load: loop points inside the data, LOOP => non-empty loop */
+static void final_headers(struct context_data *ctx)
+{
+	struct xmp_module *mod = &ctx->m.mod;
+	int i;
+	for (i = 0; i < mod->smp; i++) {
+		struct xmp_sample *x = &mod->xxs[i];
+		if (x->data == NULL)
+			continue;
+		final_checked++;
+		if (!(0 <= x->lps && x->lps <= x->lpe && x->lpe <= x->len) || ((x->flg & XMP_SAMPLE_LOOP) && !(x->lps < x->lpe)))
+			printf("O %s_e%d final-loop-range len=%d lps=%d lpe=%d flg=%d\n", spy_prefix, i, x->len, x->lps, x->lpe, x->flg);
+	}
+}
+
+/* play the loaded module for a few frames with every interpolator: the sample memory must stay what the load exposed */
+static void corpus_play(xmp_context opaque)
+{
+	static const int interps[3] = { XMP_INTERP_NEAREST, XMP_INTERP_LINEAR, XMP_INTERP_SPLINE };
+	struct context_data *ctx = (struct context_data *)opaque;
+	struct xmp_module *mod = &ctx->m.mod;
+	unsigned char **snap;
+	size_t *sz, total = 0;
+	int i, ip, k, bad = -1;
+
+	if (mod->smp <= 0)
+		return;
+	snap = (unsigned char **)calloc(mod->smp, sizeof(*snap));
+	sz = (size_t *)calloc(mod->smp, sizeof(*sz));
+	for (i = 0; i < mod->smp; i++) {
+		struct xmp_sample *x = &mod->xxs[i];
+		int fl = frame_len(x->flg);
+		if (x->data == NULL || x->len <= 0 || (x->flg & XMP_SAMPLE_SYNTH))
+			continue;
+		sz[i] = 4 + (size_t)x->len * fl + 4 * fl;
+		total += sz[i];
+		if (total > (8u << 20)) {
+			sz[i] = 0;
+			continue;
+		}
+		snap[i] = (unsigned char *)malloc(sz[i]);
+		memcpy(snap[i], x->data - 4, sz[i]);
+	}
+	for (ip = 0; ip < 3 && bad < 0; ip++) {
+		if (xmp_start_player(opaque, 8000, 0) != 0)
+			break;
+		xmp_set_player(opaque, XMP_PLAYER_INTERP, interps[ip]);
+		for (k = 0; k < 12; k++)
+			if (xmp_play_frame(opaque) != 0)
+				break;
+		xmp_end_player(opaque);
+		for (i = 0; i < mod->smp && bad < 0; i++) {
+			if (snap[i] && mod->xxs[i].data && alloc_diff(&mod->xxs[i], snap[i], sz[i]) >= 0) {
+				bad = i;
+				printf("O %s_e%d playback-modified byte %ld of %lu after 12 frames, loop=[%d,%d) flg=%d len=%d, interp %d\n", spy_prefix, i,
+				       alloc_diff(&mod->xxs[i], snap[i], sz[i]), (unsigned long)sz[i], mod->xxs[i].lps, mod->xxs[i].lpe,
+				       mod->xxs[i].flg, mod->xxs[i].len, ip);
+			}
+		}
+	}
+	corpus_played++;
+	for (i = 0; i < mod->smp; i++)
+		free(snap[i]);
+	free(snap);
+	free(sz);
+}
+
 static int corpus(long maxbytes, int nfiles, char **files)
 {
 	int i;
@@ -364,15 +590,19 @@ static int corpus(long maxbytes, int nfiles, char **files)
 		spy_seen = 0;
 		r = xmp_load_module_from_memory(ctx, data, size);
 		spy_on = 0;
-		if (r == 0)
+		if (r == 0) {
+			final_headers((struct context_data *)ctx);
+			corpus_play(ctx);
 			xmp_release_module(ctx);
+		}
 		xmp_free_context(ctx);
 		free(data);
 		printf("file %s ret=%d calls=%ld\n", files[i], r, spy_seen);
 	}
 	fprintf(stderr, "recorded %ld unrecorded %ld\n", spy_recorded, spy_unrecorded);
-	printf("spy recorded=%ld unrecorded=%ld callback_handle=%ld toolarge=%ld preset=%ld skippath=%ld file_handle=%ld\n", spy_recorded,
-	       spy_unrecorded, spy_nonmem, spy_toolarge, spy_preset, spy_skippath, spy_filehandle);
+	printf("spy recorded=%ld unrecorded=%ld callback_handle=%ld toolarge=%ld preset=%ld skippath=%ld file_handle=%ld "
+	       "epilogue_headers=%ld final_headers=%ld modules_played=%ld\n", spy_recorded,
+	       spy_unrecorded, spy_nonmem, spy_toolarge, spy_preset, spy_skippath, spy_filehandle, epi_recorded, final_checked, corpus_played);
 	return 0;
 }
 
@@ -774,6 +1004,12 @@ int main(int argc, char **argv)
 
 	setvbuf(stdout, obuf, _IOFBF, sizeof(obuf));
 	do_flush = getenv("C20_FLUSH") != NULL;
+	if (getenv("C20_PLAY_EVERY"))
+		play_every = atol(getenv("C20_PLAY_EVERY"));
+	else if (argc > 1 && !strcmp(argv[1], "exh"))
+		play_every = 8;
+	else if (argc > 1 && !strcmp(argv[1], "big"))
+		play_every = 0;
 	if (argc < 3) {
 		fprintf(stderr, "usage: see the comment at the top of c20_sample.c\n");
 		return 2;
@@ -808,5 +1044,6 @@ int main(int argc, char **argv)
 		}
 	}
 	fprintf(stderr, "cases %ld\n", ncases_run);
+	printf("plays %ld\n", plays_done);
 	return 0;
 }
